@@ -453,6 +453,17 @@ def r4b_listing_examined_completely(ctx):
 def r5_errors_propagate(ctx):
     shared.local_listing_errors_propagate(ctx, 'C08.R5')
     shared.deletion_confined_to_gc_commands(ctx, 'C08.R1')
+    # "exactly those referenced by the remaining snapshots" presupposes listings that report every object once and to the end
+    from ..report import Relabel as _RL8
+    from .c12 import r1_bounded_retry as _br
+    from .c13 import r2_pagination as _pg
+
+    _pg(_RL8(ctx, 'C08.R4'))
+    _br(_RL8(ctx, 'C08.R5'))
+    from .c03 import r7_local_clean as _lc
+
+    # the adapter's own clean-up removes empty directories only - never objects (of any area)
+    _lc(_RL8(ctx, 'C08.R6'))
     shared.no_swallowed_backend_errors(ctx, 'C08.R5')
     shared.gathers_propagate(ctx, 'C08.R5')
 
